@@ -23,6 +23,7 @@ import (
 	"github.com/emitter-io/emitter/internal/async"
 	"github.com/emitter-io/emitter/internal/message"
 	"github.com/emitter-io/emitter/internal/provider/logging"
+	"github.com/emitter-io/emitter/internal/verifyield"
 	"github.com/weaveworks/mesh"
 )
 
@@ -129,12 +130,15 @@ func (p *Peer) processSendQueue() {
 	// Swap the frame and split the frame in chunks of at most 10MB
 	// for gossip unicast to work.
 	frame := p.swap()
+	verifyield.Point("cluster.Peer.processSendQueue:swapped")
 	for {
 		var chunk message.Frame
 		chunk, frame = frame.Split(maxByteFrameSize)
 		if len(chunk) == 0 {
 			break
 		}
+
+		verifyield.Point("cluster.Peer.processSendQueue:chunk")
 
 		buffer := chunk.Encode()
 		if err := p.sender.GossipUnicast(p.name, buffer); err != nil {
